@@ -186,7 +186,7 @@ public:
   IntervalTransformedParameter(const std::string& name, double value, double lowerBound = 0, double upperBound = 1, double scale = 1, bool hyper = true) :
     TransformedParameter(name, hyper ?
         scale * atanh(2. * (value - lowerBound) / (upperBound - lowerBound) - 1.) :
-        scale * tan(NumConstants::PI() * (value - lowerBound) / (upperBound - lowerBound) - NumConstants::PI() / 2.)),
+        scale * tan(NumConstants::PI() * ((value - lowerBound) / (upperBound - lowerBound)) - NumConstants::PI() / 2.)),
     scale_(scale),
     lowerBound_(lowerBound),
     upperBound_(upperBound),
@@ -200,9 +200,11 @@ public:
   void setOriginalValue(double value)
   {
     if (value <= lowerBound_ || value >= upperBound_) throw ConstraintException("IntervalTransformedParameter::setValue", this, value);
+    // The ratio is computed first: it is at most 1, so that the angle stays within [-PI/2, PI/2]
+    // (PI * (value - a) / (b - a) can exceed PI by rounding, and the tangent then wraps around).
     setValue(hyper_ ?
         scale_ * atanh(2. * (value - lowerBound_) / (upperBound_ - lowerBound_) - 1.) :
-        scale_ * std::tan(NumConstants::PI() * (value - lowerBound_) / (upperBound_ - lowerBound_) - NumConstants::PI() / 2.));
+        scale_ * std::tan(NumConstants::PI() * ((value - lowerBound_) / (upperBound_ - lowerBound_)) - NumConstants::PI() / 2.));
   }
 
   double getOriginalValue() const
